@@ -32,6 +32,7 @@ def run(ctx) -> None:
     rep.rule("C04.R3", "staleness comparator: equal->fresh, greater->stale; versions only ever grow by one; accumulator rule consulted", floor=4)
     rep.rule("C04.R4", "an END decision is never cleared as stale; a loop body is re-activated by whichever of its controlling gates routes to it", floor=2)
     rep.rule("C04.R6", "gate options (default_open ...) reach the gate node: factories and constructors use every option they accept", floor=8)
+    rep.rule("C04.R7", "a gate synchronised on an ordering signal re-decides only on a fresh signal: fresh iff the current version is strictly greater than the consumed one (else it re-decides on the previous turn's signal and the body runs an extra, early iteration)", floor=2)
     rep.rule("C04.R5", "a ready gate holds its targets back even when it is itself deferred behind the producer of its signal", floor=1)
 
     sss = set(superstep_funcs(db))
@@ -46,7 +47,13 @@ def run(ctx) -> None:
                 cfg = ctx.cfg(m)
                 rd = reaching_defs(cfg)
                 tgt = [cal.func for cal in db.resolve_call(c, m) if cal.func is not None][0]
+                # the bound is the argument derived from run()'s own max_iterations (the callee's parameter name is not API)
                 arg = bind_args(c, tgt).get("max_iterations")
+                if arg is None:
+                    n0 = cfg.node_containing(c)[0]
+                    for a_ in list(c.args) + [k.value for k in c.keywords]:
+                        if isinstance(a_, ast.Name) and (a_.id == "max_iterations" or any(v is not None and any(isinstance(x, ast.Name) and x.id == "max_iterations" for x in ast.walk(v)) for d, v in defs_reaching(cfg, rd, n0, a_.id))):
+                            arg = a_
                 ok = not in_loop and arg is not None
                 why = "execute loop entered inside a loop" if in_loop else "max_iterations not passed"
                 if ok:
@@ -250,6 +257,11 @@ def _r5(ctx) -> None:
     from .c03 import check_node_options_used
 
     check_block_before_deferral(ctx, "C04.R5")
+
+    # ---- R7 ---------------------------------------------------------------------
+    from .c17 import check_wait_freshness
+
+    check_wait_freshness(ctx, "C04.R7")
     check_node_options_used(ctx, "C04.R6")
     from .c03 import check_any_gate_activates
 
